@@ -13,6 +13,13 @@ fn nk_line(conf: Confidence, n: usize, k: usize) -> String {
 }
 
 pub fn c02(out: &mut Vec<String>, rng: &mut Rng, tier: &str) {
+    // a failed request must not affect later ones: an out-of-range level written as an enum literal makes the
+    // quantile routine panic (caught here, as a caller recovering from a bad request would); every later call
+    // with valid arguments must still return its interval
+    for bad in [Confidence::TwoSided(95.), Confidence::UpperOneSided(-0.5), Confidence::LowerOneSided(f64::NAN)] {
+        let _ = guarded(|| enc_cires(&proportion::ci_wilson(bad, 100, 50)));
+        let _ = guarded(|| enc_cires(&proportion::ci_z_normal(bad, 100, 50)));
+    }
     let nmax = if tier == "thorough" { 400 } else { 90 };
     let confs: Vec<Confidence> = if tier == "thorough" {
         let mut v = Vec::new();
@@ -372,6 +379,21 @@ pub fn c17(out: &mut Vec<String>, rng: &mut Rng, tier: &str) {
         let m = rng.range(2, 50) as usize;
         out.push(format!("C17 rel p shrink {} {} {} {} {} {} => {} | {}", ec, n, k, ec, m * n, m * k, w(c, n, k), w(c, m * n, m * k)));
     }
+    // populations from 2^33 to 2^52 with successes and failures both large (their product is beyond 2^64; the
+    // counts are still exact in f64)
+    for i in 0..(if tier == "thorough" { 400 } else { 60 }) {
+        let e = rng.range(33, 52);
+        let n = ((1i64 << e) + rng.range(0, 1 << 20)) as usize;
+        let k = ((n as f64) * (0.05 + 0.9 * rng.unit())) as usize;
+        let c = if i % 3 == 0 { conf_of(rng.below(3), 0.95) } else { rand_conf(rng) };
+        let ec = enc_conf(&c);
+        let step = 1 + (n as f64).sqrt() as usize * (1 + rng.below(50) as usize);
+        let k2 = (k + step).min(n - 2);
+        out.push(format!("C17 rel p mono {} {} {} {} {} {} => {} | {}", ec, n, k, ec, n, k2, w(c, n, k), w(c, n, k2)));
+        let f = c.flipped();
+        out.push(format!("C17 rel p mirror {} {} {} {} {} {} => {} | {}", ec, n, k, enc_conf(&f), n, n - k, w(c, n, k), w(f, n, n - k)));
+        out.push(format!("C17 rel p shrink {} {} {} {} {} {} => {} | {}", ec, n, k, ec, 2 * n, 2 * k, w(c, n, k), w(c, 2 * n, 2 * k)));
+    }
 }
 
 // ------------------------------------------------------------------------------------------
@@ -596,6 +618,25 @@ pub fn c12(out: &mut Vec<String>, _rng: &mut Rng, tier: &str) {
                 out.push(line);
             }
         }
+    }
+    // the same coverage with the requests of two or three settings interleaved (A, B, A, B, …): the interval for
+    // (confidence, n, k) is a function of its arguments, whatever was asked before on this thread
+    for (n, confs) in [
+        (41usize, vec![conf_of(0, 0.95), conf_of(2, 0.95)]),
+        (150, vec![conf_of(1, 0.9), conf_of(0, 0.95)]),
+        (61, vec![conf_of(0, 0.9), conf_of(1, 0.9), conf_of(2, 0.99)]),
+        (333, vec![conf_of(2, 0.8), conf_of(0, 0.99)]),
+    ] {
+        let mut lines: Vec<String> = confs.iter().map(|c| format!("C12 cover p {} {} =>", enc_conf(c), n)).collect();
+        for k in 0..=n {
+            for (i, c) in confs.iter().enumerate() {
+                match proportion::ci(*c, n, k) {
+                    Ok(Interval::TwoSided(a, bb)) => lines[i].push_str(&format!(" {} {}", a.enc(), bb.enc())),
+                    _ => lines[i].push_str(" - -"),
+                }
+            }
+        }
+        out.extend(lines);
     }
     // quantile intervals: ranks for a grid of q
     let nq: Vec<usize> = if tier == "thorough" { vec![20, 30, 50, 100, 200, 400, 1000, 3000] } else { vec![20, 50, 100, 400, 1200] };
